@@ -196,6 +196,8 @@ class SReal:
     def __mul__(self, o):
         if not _num(o):
             return NotImplemented
+        if isinstance(o, SReal) and CUR is not None:
+            CUR.nonlinear = True
         return _mk(self, o, lambda a, b: a * b, lambda a, b: a * b)
 
     def __rmul__(self, o):
@@ -487,12 +489,13 @@ class Ctx:
         self.extra_constraints = []
         self.floor_memo = {}
         self.reach_len = -1
+        self.nonlinear = False
 
     # -- solver helpers
     def _check(self, *extra):
         st = self.ex.stats
         t = time.time()
-        if self.ex.oneshot:
+        if self.ex.oneshot is True or (self.ex.oneshot == 'auto' and self.nonlinear):
             # one-shot solver: z3 then selects its complete QF_NRA procedure
             # (nlsat); the incremental core is much weaker on non-linear reals
             s1 = z3.Solver()
@@ -604,6 +607,7 @@ class Ctx:
         if q is None:
             q = self.fresh_real('div')
             self.div_memo[key] = q
+            self.nonlinear = True
             self.assume(q * d == n)
         return q
 
@@ -613,6 +617,7 @@ class Ctx:
         if r is None:
             r = self.fresh_real('sqrt')
             self.sqrt_memo[key] = r
+            self.nonlinear = True
             self.assume(r >= 0)
             self.assume(r * r == a)
         return r
@@ -871,7 +876,7 @@ def z3_to_py(val):
 class Explorer:
     def __init__(self, max_paths=20000, query_timeout_ms=10000,
                  concretize_cap=64, wall_s=None, stop_on_violation=True,
-                 max_samples=3, oneshot=True):
+                 max_samples=3, oneshot='auto'):
         self.oneshot = oneshot
         self.max_paths = max_paths
         self.query_timeout_ms = query_timeout_ms
